@@ -118,6 +118,8 @@ class ProgGen:
 		self.lines: list[str] = []
 		self.uses_callable = False
 		self.dead: list = []
+		self.fixed_calls: dict = {}
+		self.generics: dict = {}
 
 	# ---- utils ------------------------------------------------------------------------
 	def on(self, flag: str) -> bool:
@@ -264,7 +266,19 @@ class ProgGen:
 				cx.tags.add('dict-get')
 				n = self.pick(dicts)
 				key = self.wrap(self.expr(cx, cx.env[n][1], 0), P_TERN)
-				return (f'{n}.get({key}, {self.pick(["0", "-1", "7"])})', P_ATOM)
+				call = f'{n}.get({key}, {self.pick(["0", "-1", "7"])})'
+				# the call expands to a conditional expression: use it directly as the operand of every operator class
+				k = self.rnd.randint(0, 9)
+				if k == 0:
+					cx.tags.add('dict-get-unary')
+					return (f'{self.pick(["-", "~"])}{call}', P_UNARY)
+				if k == 1:
+					cx.tags.add('dict-get-ternary-cond')
+					return (f'{self.pick(PRIMES)} if {call} else {self.pick(PRIMES)}', P_TERN)
+				if k == 2:
+					cx.tags.add('dict-get-ternary-cond')
+					return (f'{self.pick(PRIMES)} if not {call} else {self.pick(PRIMES)}', P_TERN)
+				return (call, P_ATOM)
 		if c == 22:
 			cx.tags.add('cast')
 			src = self.pick(['bool', 'float'])
@@ -910,6 +924,171 @@ class ProgGen:
 		self.lines += [f'def {name}({sig}) -> {py_ty(ret)}:'] + body + ['']
 		self.funcs.append((name, params, ret, tags))
 
+	def gen_generic(self) -> None:
+		"""A user generic class and a function that instantiates it with several type arguments in one body: attribute / method types
+		depend on the receiver's type arguments, not on the class alone."""
+		r = self.rnd
+		k = len(self.generics)
+		g, tv = f'G{k}', f'T_G{k}'
+		self.generics[g] = tv
+		self.lines += [f"{tv} = TypeVar('{tv}')", '', f'class {g}(Generic[{tv}]):', f'\tg{k}0: {tv}', f'\tg{k}1: list[{tv}]', '',
+			f'\tdef __init__(self, a0: {tv}) -> None:', f'\t\tself.g{k}0 = a0', f'\t\tself.g{k}1 = [a0]', '',
+			f'\tdef mg{k}0(self) -> {tv}:', f'\t\treturn self.g{k}0', '',
+			f'\tdef mg{k}1(self, q1: {tv}) -> list[{tv}]:', f'\t\tself.g{k}1.append(q1)', f'\t\treturn self.g{k}1', '']
+		name = f'f{len(self.funcs)}'
+		pa, pb, pc = self.fresh('a'), self.fresh('a'), self.fresh('a')
+		params = [(pa, T_INT, None), (pb, T_STR, None), (pc, T_FLOAT, None)]
+		tags = {'generic-class'}
+		src = {'int': [f'{pa}', f'{pa} + 1', '7'], 'str': [f'{pb}', f"{pb} + 'x'"] + (["'k'"] if self.on('str-literal-concat') else []), 'float': [pc]}  # a bare literal is a C string literal in the output (root cause of the listed str-literal findings)
+		objs: list[tuple[str, str]] = []
+		body: list[str] = []
+		acc: list[str] = []   # string-valued pieces of the result
+		order = [self.pick(['int', 'str', 'float']) for _ in range(r.randint(2, 4))]
+		if len(set(order)) == 1:
+			order.append('str' if order[0] != 'str' else 'int')
+		for t in order:
+			o = self.fresh('o')
+			if self.chance(0.25) and t != 'float':
+				body.append(f'\t{o}: {g}[{t}] = {g}({self.pick(src[t])})')
+			else:
+				body.append(f'\t{o} = {g}({self.pick(src[t])})')
+			objs.append((o, t))
+			for _ in range(r.randint(0, 2)):
+				o2, t2 = self.pick(objs)
+				c = r.randint(0, 4)
+				v = self.fresh()
+				lit = {'int': '3', 'str': "'q'", 'float': pc}[t2]
+				def text(x: str) -> str:
+					return x if t2 == 'str' else (f'str({x})' if t2 == 'int' else f'str(int({x}))')
+				if c == 0:
+					body.append(f'\t{v} = {o2}.g{k}0')
+					acc.append(text(v))
+				elif c == 1:
+					# derived scalars at once: a kept list would alias the object's field in Python and be a copy in C++
+					body.append(f'\t{v} = len({o2}.g{k}1)')
+					acc.append(f'str({v})')
+					v = self.fresh()
+					body.append(f'\t{v} = {o2}.g{k}1[0]')
+					acc.append(text(v))
+				elif c == 2:
+					body.append(f'\t{v} = {o2}.mg{k}0()')
+					acc.append(text(v))
+				elif c == 3:
+					body.append(f'\t{v} = len({o2}.mg{k}1({lit}))')
+					acc.append(f'str({v})')
+				else:
+					op = {'int': f'{o2}.g{k}0 + 2', 'str': f"{o2}.g{k}0 + 'y'", 'float': f'{o2}.g{k}0 + {pc}'}[t2]
+					body.append(f'\t{v} = {op}')
+					acc.append(text(v))
+		o2, t2 = self.pick(objs)
+		acc.append(f'{o2}.mg{k}0()' if t2 == 'str' else (f'str({o2}.mg{k}0())' if t2 == 'int' else f'str(int({o2}.mg{k}0()))'))
+		body.append("\treturn " + " + ',' + ".join(acc))
+		sig = ', '.join(f'{p}: {py_ty(t)}' for p, t, _ in params)
+		self.lines += [f'def {name}({sig}) -> str:'] + body + ['']
+		self.funcs.append((name, params, T_STR, tags))
+		self.fixed_calls[name] = [[self.pick([0, 1, -4, 12]), self.pick(['', 'a', 'zq']), self.pick([0.5, 2.0, -1.25])] for _ in range(3)]
+
+	def gen_probe_func(self) -> None:
+		"""Operand-position probe: expressions whose C++ form is a compound expression (conditional, call chain, negation, find)
+		used directly as the operand of every operator class, with every value returned (nothing the emitted code computes is unobserved)."""
+		r = self.rnd
+		name = f'f{len(self.funcs)}'
+		d, xs, k, n, b, s_ = (self.fresh('a') for _ in range(6))
+		params = [(d, ('dict', T_STR, T_INT), None), (xs, ('list', T_INT), None), (k, T_STR, None), (n, T_INT, None), (b, T_BOOL, None), (s_, T_STR, None)]
+		tags = {'operand-probe'}
+
+		def key():
+			return self.pick([k, "'a'", "'b'"])
+
+		def inner_int():
+			c = r.randint(0, 5)
+			if c <= 2 and self.on('dict-get'):
+				tags.add('dict-get')
+				return (f'{d}.get({key()}, {self.pick(["0", "-1", "7"])})', P_ATOM)
+			if c == 3:
+				return (f'int({b})', P_ATOM)
+			if c == 4:
+				return (f'{xs}[0]', P_ATOM)
+			return (n, P_ATOM)
+
+		def inner_bool():
+			c = r.randint(0, 8)
+			if c == 0:
+				return (f'{key()} in {d}', P_CMP)
+			if c == 1:
+				return (f'{key()} not in {d}', P_CMP)
+			if c == 2:
+				return (f'{n} in {xs}', P_CMP)
+			if c == 3:
+				return (f'{n} not in {xs}', P_CMP)
+			if c == 4:
+				return (f'not {b}', P_NOT)
+			if c == 5:
+				return (f"{s_} == 'a'", P_CMP)
+			if c == 6:
+				return (f"{s_}.startswith('a')", P_ATOM)
+			if c == 7:
+				return (f'{b} and {n} > 0', P_AND)
+			return (f'{b} or {n} > 0', P_OR)
+
+		def ctx_int(e):
+			c = r.randint(0, 11)
+			w = lambda need: self.wrap(e, need)
+			if c == 0:
+				return ((f'-{w(P_UNARY)}', P_UNARY), 'int') if not e[0].startswith(('-', '~')) else ((f'-({e[0]})', P_UNARY), 'int')
+			if c == 1:
+				return ((f'~{w(P_UNARY)}', P_UNARY), 'int') if not e[0].startswith(('-', '~')) else ((f'~({e[0]})', P_UNARY), 'int')
+			if c == 2:
+				return ((f'{w(P_ADD)} + 1', P_ADD), 'int')
+			if c == 3:
+				return ((f'1 - {w(P_ADD + 1)}', P_ADD), 'int')
+			if c == 4:
+				return ((f'{w(P_MUL)} * 2', P_MUL), 'int')
+			if c == 5:
+				return ((f'{w(P_BAND)} & 3', P_BAND), 'int')
+			if c == 6:
+				return ((f'{w(P_CMP + 1)} == {self.pick(["0", "1", "5"])}', P_CMP), 'bool')
+			if c == 7:
+				return ((f'{n} > {w(P_CMP + 1)}', P_CMP), 'bool')
+			if c == 8:
+				return ((f'7 if {w(P_TERN + 1)} else 3', P_TERN), 'int')
+			if c == 9:
+				return ((f'not {w(P_NOT)}', P_NOT), 'bool')
+			if c == 10:
+				return ((f'{w(P_TERN + 1)} if {b} else 3', P_TERN), 'int')
+			return ((f'3 if {b} else {w(P_TERN)}', P_TERN), 'int')
+
+		def ctx_bool(e):
+			c = r.randint(0, 6)
+			w = lambda need: self.wrap(e, need)
+			if c == 0:
+				return ((f'not {w(P_NOT)}', P_NOT), 'bool')
+			if c == 1:
+				return ((f'{w(P_AND)} and {b}', P_AND), 'bool')
+			if c == 2:
+				return ((f'{b} or {w(P_OR + 1)}', P_OR), 'bool')
+			if c == 3:
+				return ((f'{w(P_CMP + 1)} == {b}', P_CMP), 'bool')
+			if c == 4:
+				return ((f'int({w(P_TERN)})', P_ATOM), 'int')
+			if c == 5:
+				return ((f'1 if {w(P_TERN + 1)} else 2', P_TERN), 'int')
+			return ((f'{w(P_TERN + 1)} if {b} else False', P_TERN), 'bool')
+
+		elems = []
+		for _ in range(r.randint(3, 5)):
+			e, t = (inner_int(), 'int') if self.chance(0.6) else (inner_bool(), 'bool')
+			for _ in range(r.randint(1, 2)):
+				e, t = ctx_int(e) if t == 'int' else ctx_bool(e)
+			elems.append(self.wrap(e, P_TERN + 1) if t == 'int' else f'int({e[0]})')
+		ret = ('list', T_INT)
+		sig = ', '.join(f'{p}: {py_ty(t)}' for p, t, _ in params)
+		self.lines += [f'def {name}({sig}) -> {py_ty(ret)}:', f'\treturn [{", ".join(elems)}]', '']
+		self.funcs.append((name, params, ret, tags))
+		ds = [{'a': 5, 'b': 0}, {}, {'b': -3, 'c': 1}, {'a': -1}]
+		xss = [[1], [0, 2], [3, -1, 4]]
+		self.fixed_calls[name] = [[self.pick(ds), self.pick(xss), self.pick(['a', 'b', 'zz']), self.pick([-1, 0, 1, 2, 3]), self.chance(0.5), self.pick(['a', '', 'ab'])] for _ in range(5)]
+
 	def program(self) -> dict:
 		r = self.rnd
 		if self.chance(0.6) and self.on('enum'):
@@ -923,7 +1102,13 @@ class ProgGen:
 		nfun = r.randint(2, 4)
 		for i in range(nfun):
 			self.gen_func(entry=(i >= nfun - 2) or self.chance(0.3))
+		if self.chance(0.4) and self.on('operand-probe'):
+			self.gen_probe_func()
+		if self.chance(0.3) and self.on('generic-class'):
+			self.gen_generic()
 		header = ['from enum import Enum'] if self.enums else []
+		if self.generics:
+			header.append('from typing import Generic, TypeVar')
 		if self.uses_callable:
 			header.append('from collections.abc import Callable')
 		source = '\n'.join(header + [''] + self.lines) + '\n'
@@ -931,8 +1116,7 @@ class ProgGen:
 		for name, params, ret, tags in self.funcs:
 			if any(t[0] in ('class', 'enum', 'callable') for _, t, _ in params):
 				continue
-			for _ in range(r.randint(2, 4)):
-				vals = [self.sample_value(t) for _, t, _ in params]
+			for vals in self.fixed_calls.get(name) or [[self.sample_value(t) for _, t, _ in params] for _ in range(r.randint(2, 4))]:
 				calls.append({'func': name, 'py': f'{name}({", ".join(py_lit(v) for v in vals)})', 'cpp': f'{name}({", ".join(cpp_lit(v, t) for v, (_, t, _) in zip(vals, params))})'})
 		fields = {c: [f for f, _ in self.all_fields(c)] for c in self.classes}
 		shows = []
